@@ -487,7 +487,7 @@ def iter_step(sim, st, it):
         inner, k = it.data
         if k <= 0:
             return it, None
-        inner2, item = iter_step(sim, st, inner)
+        inner2, item = step_any(sim, st, inner)
         return Opaque("Take", (inner2, k - 1 if item is not None else 0)), item
     if it.kind == "Skip":
         inner, k = it.data
@@ -509,10 +509,82 @@ def iter_step(sim, st, it):
         if item is None:
             return Opaque("Copied", (inner2,)), None
         return Opaque("Copied", (inner2,)), deref_arg(sim, st, item)
+    if it.kind == "ArrayIntoIter":
+        elems, i = it.data
+        if i < len(elems):
+            return Opaque("ArrayIntoIter", (elems, i + 1)), elems[i]
+        return it, None
+    if it.kind == "Map":
+        inner2, item = iter_step(sim, st, it.data[0])
+        if item is None:
+            return Opaque("Map", (inner2, it.data[1])), None
+        return Opaque("Map", (inner2, it.data[1])), sim.call_sync(st, it.data[1], [item])
+    if it.kind == "Filter":
+        inner = it.data[0]
+        while True:
+            inner, item = iter_step(sim, st, inner)
+            if item is None:
+                return Opaque("Filter", (inner, it.data[1])), None
+            oid = st.new_obj("filter_item", item)
+            keep = sim.decide_bool(st, sim.call_sync(st, it.data[1], [Ref(Ptr(oid))]))
+            if keep:
+                return Opaque("Filter", (inner, it.data[1])), item
+    if it.kind == "FilterMap":
+        inner = it.data[0]
+        while True:
+            inner, item = iter_step(sim, st, inner)
+            if item is None:
+                return Opaque("FilterMap", (inner, it.data[1])), None
+            r = sim.force_variant(st, sim.call_sync(st, it.data[1], [item]))
+            if r.vname == "Some":
+                return Opaque("FilterMap", (inner, it.data[1])), r.fields[0]
+    if it.kind == "Zip":
+        a2, x = iter_step(sim, st, it.data[0])
+        if x is None:
+            return Opaque("Zip", (a2, it.data[1])), None
+        b2, y = iter_step(sim, st, it.data[1])
+        if y is None:
+            return Opaque("Zip", (a2, b2)), None
+        return Opaque("Zip", (a2, b2)), Struct(tuple_ty([None, None]), (x, y))
+    if it.kind == "Chain":
+        a, b = it.data
+        if a is not None:
+            a2, x = iter_step(sim, st, a)
+            if x is not None:
+                return Opaque("Chain", (a2, b)), x
+            a = None
+        b2, y = iter_step(sim, st, b)
+        return Opaque("Chain", (None, b2)), y
     raise S.Unsupported("next on %r" % (it,))
 
 
-@pattern(r"^<std::(slice::Iter(Mut)?<'a, T>|iter::(Take|Skip|Enumerate|Rev|Copied|Cloned)<I>) as std::iter::Iterator>::next$")
+def range_as_iter(sim, st, it):
+    return it
+
+
+def step_any(sim, st, it):
+    """iter_step that also understands Range<usize> structs."""
+    it = sim.resolve(st, it)
+    if isinstance(it, Struct) and it.ty and is_adt(it.ty, "Range"):
+        a, b = sim.resolve(st, it.fields[0]), sim.resolve(st, it.fields[1])
+        if sim.int_sign(st, int_sub(a, b), {"<"}):
+            return Struct(it.ty, (int_add(a, Const(1, getattr(a, "ty", None)), getattr(a, "ty", None)), b)), a
+        return it, None
+    return iter_step(sim, st, it)
+
+
+def drain(sim, st, it, limit=64):
+    """All remaining items of an abstract iterator value."""
+    out = []
+    for _ in range(limit):
+        it, item = step_any(sim, st, it)
+        if item is None:
+            return out
+        out.append(item)
+    raise S.Unsupported("iterator longer than %d items" % limit)
+
+
+@pattern(r"^<std::(slice::Iter(Mut)?<'a, T>|array::IntoIter<T, N>|iter::(Take|Skip|Enumerate|Rev|Copied|Cloned)<I>|iter::(Map|Filter|FilterMap)<I, [A-Z]\w*>|iter::(Zip|Chain)<A, B>|collections::vec_deque::Iter(Mut)?<'a, T>|vec::IntoIter<T, A>) as std::iter::Iterator>::next$")
 def m_slice_iter_next(sim, st, c):
     p = sim.deref_value(st, c["args"][0])
     it = sim.read(st, p)
@@ -614,6 +686,8 @@ def slice_bounds(sim, st, r):
         _, a, b = r.ptr.path[-1]
         return Ptr(r.ptr.obj, r.ptr.path[:-1]), a, b
     arr = sim.expand(st, sim.read(st, r.ptr))
+    if isinstance(arr, Opaque) and arr.kind == "List":
+        return r.ptr, 0, len(arr.data[0])
     if not isinstance(arr, Array):
         raise S.Unsupported("slice op on %r" % (arr,))
     return r.ptr, 0, len(arr.elems)
@@ -842,24 +916,11 @@ LOCAL = {
 # --------------------------------------------------------------------------------------------- closures and Option/Result combinators
 
 def call_closure(sim, st, c, clo, args, post=None):
-    clo = sim.resolve(st, clo)
-    if not (isinstance(clo, Opaque) and clo.kind == "Closure"):
-        raise S.Unsupported("call of non-closure callable %r" % (clo,))
-    fn = sim.prog.fns.get(clo.data[0])
-    if fn is None or "body" not in fn:
-        raise S.Unsupported("closure body missing")
-    body = fn["body"]
-    gargs = clo.data[2].g if len(clo.data) > 2 else []
-    n = len(fn["generics"])
-    gargs = list(gargs) + [{"k": "param", "name": fn["generics"][i]["name"], "idx": i} for i in range(len(gargs), n)]
-    sty = body["locals"][1]["ty"]
-    if sty.get("k") == "ref":
-        oid = st.new_obj("closure", clo)
-        a0 = Ref(Ptr(oid), sty.get("mut", False))
-    else:
-        a0 = clo
-    sim.push_frame(st, fn, body, gargs, [a0] + list(args), c["dest"], c["ret_bb"], tag=post)
-    return NotImplemented
+    """Call a closure or fn item synchronously; optional post-processing hook ('post', name, extra)."""
+    r = sim.call_sync(st, clo, list(args), None, c.get("span"))
+    if post:
+        r = POST[post[1]](sim, st, r, post[2])
+    return r
 
 
 def post_wrap(sim, st, ret, extra):
@@ -1223,3 +1284,387 @@ def m_ordering_is(sim, st, c):
     name = c["fn"]["name"]
     table = {"is_eq": {"Equal"}, "is_ne": {"Less", "Greater"}, "is_lt": {"Less"}, "is_le": {"Less", "Equal"}, "is_gt": {"Greater"}, "is_ge": {"Greater", "Equal"}}
     return Const(o.vname in table[name], prim("bool"))
+
+
+
+# --------------------------------------------------------------------------------------------- closures as values, more iterators
+
+@pattern(r"^std::ops::(Fn|FnMut|FnOnce)::(call|call_mut|call_once)$")
+def m_fn_call(sim, st, c):
+    f = c["args"][0]
+    tup = sim.expand(st, sim.resolve(st, c["args"][1]))
+    args = list(tup.fields) if isinstance(tup, Struct) else []
+    return sim.call_sync(st, f, args, c["ret_ty"], c["span"])
+
+
+@pattern(r"^std::array(::iter)?::<impl std::iter::IntoIterator for \[T; N\]>::into_iter$")
+def m_array_into_iter_by_value(sim, st, c):
+    arr = sim.expand(st, sim.resolve(st, c["args"][0]))
+    if not isinstance(arr, Array):
+        raise S.Unsupported("into_iter of %r" % (arr,))
+    return Opaque("ArrayIntoIter", (tuple(arr.elems), 0))
+
+
+@pattern(r"^<std::vec::Vec<T, A> as std::iter::IntoIterator>::into_iter$")
+def m_vec_into_iter_by_value(sim, st, c):
+    l = sim.resolve(st, c["args"][0])
+    if isinstance(l, Opaque) and l.kind == "List":
+        return Opaque("ArrayIntoIter", (tuple(l.data[0]), 0))
+    raise S.Unsupported("into_iter of %r" % (l,))
+
+
+@model("std::array::from_fn")
+def m_array_from_fn(sim, st, c):
+    n = const_val(c["ret_ty"]["len"])
+    if n is None:
+        raise S.Unsupported("from_fn with symbolic length")
+    return Array([sim.call_sync(st, c["args"][0], [Const(i, prim("usize"))]) for i in range(n)], c["ret_ty"])
+
+
+def range_bounds(sim, st, r, n):
+    """(start, end) of a range-like index value over a sequence of length n."""
+    r = sim.expand(st, sim.resolve(st, r))
+    name = r.ty["name"] if isinstance(r, Struct) and r.ty and r.ty.get("k") == "adt" else None
+
+    def c_(v):
+        v = sim.resolve(st, v)
+        if not isinstance(v, Const):
+            raise S.Unsupported("symbolic range bound")
+        return v.val
+    if name == "Range":
+        return c_(r.fields[0]), c_(r.fields[1])
+    if name == "RangeTo":
+        return 0, c_(r.fields[0])
+    if name == "RangeFrom":
+        return c_(r.fields[0]), n
+    if name == "RangeFull":
+        return 0, n
+    if name == "RangeToInclusive":
+        return 0, c_(r.fields[0]) + 1
+    raise S.Unsupported("index by %r" % (r,))
+
+
+@pattern(r"^(std::array::<impl std::ops::Index(Mut)?<I> for \[T; N\]>|std::slice::index::<impl std::ops::Index(Mut)?<I> for \[T\]>)::index(_mut)?$")
+def m_seq_index(sim, st, c):
+    r = sim.resolve(st, c["args"][0])
+    base, a, b = slice_bounds(sim, st, r)
+    idx = sim.resolve(st, c["args"][1])
+    mut = c["fn"]["name"] == "index_mut"
+    if isinstance(idx, Const) and isinstance(idx.val, int):
+        if not (0 <= idx.val < b - a):
+            raise S.SimPanic("index-oob", "index %d out of range for length %d" % (idx.val, b - a), c["span"])
+        return Ref(base.ext(("i", a + idx.val)), mut)
+    lo, hi = range_bounds(sim, st, idx, b - a)
+    if not (0 <= lo <= hi <= b - a):
+        raise S.SimPanic("index-oob", "range %d..%d out of range for length %d" % (lo, hi, b - a), c["span"])
+    return Ref(base.ext(("sl", a + lo, a + hi)), mut)
+
+
+@model("std::slice::<impl [T]>::split_first", "std::slice::<impl [T]>::split_first_mut")
+def m_split_first(sim, st, c):
+    r = sim.resolve(st, c["args"][0])
+    base, a, b = slice_bounds(sim, st, r)
+    if b - a == 0:
+        return sim.mk_enum(c["ret_ty"], "None")
+    t = c["ret_ty"]["args"][0]
+    return sim.mk_enum(c["ret_ty"], "Some", [Struct(t, (Ref(base.ext(("i", a))), Ref(base.ext(("sl", a + 1, b)))))])
+
+
+@model("std::slice::<impl [T]>::first", "std::slice::<impl [T]>::last")
+def m_slice_first(sim, st, c):
+    r = sim.resolve(st, c["args"][0])
+    base, a, b = slice_bounds(sim, st, r)
+    if b - a == 0:
+        return sim.mk_enum(c["ret_ty"], "None")
+    i = a if c["fn"]["name"] == "first" else b - 1
+    return sim.mk_enum(c["ret_ty"], "Some", [Ref(base.ext(("i", i)))])
+
+
+@model("std::slice::<impl [T]>::is_empty")
+def m_slice_is_empty(sim, st, c):
+    r = sim.resolve(st, c["args"][0])
+    base, a, b = slice_bounds(sim, st, r)
+    return Const(b == a, prim("bool"))
+
+
+@pattern(r"^std::(collections::VecDeque|vec::Vec)::<T, A>::iter(_mut)?$")
+def m_list_iter(sim, st, c):
+    r = sim.resolve(st, c["args"][0])
+    l = list_at(sim, st, r.ptr)
+    return Opaque("SliceIter", (r.ptr, 0, len(l.data[0]), c["fn"]["name"] == "iter_mut"))
+
+
+@model("std::iter::Iterator::map")
+def m_iter_map(sim, st, c):
+    return Opaque("Map", (c["args"][0], c["args"][1]))
+
+
+@model("std::iter::Iterator::filter")
+def m_iter_filter(sim, st, c):
+    return Opaque("Filter", (c["args"][0], c["args"][1]))
+
+
+@model("std::iter::Iterator::filter_map")
+def m_iter_filter_map(sim, st, c):
+    return Opaque("FilterMap", (c["args"][0], c["args"][1]))
+
+
+@model("std::iter::Iterator::zip")
+def m_iter_zip(sim, st, c):
+    other = sim.resolve(st, c["args"][1])
+    if isinstance(other, Ref):   # IntoIterator for &collection
+        tgt = sim.expand(st, sim.read(st, other.ptr))
+        if isinstance(tgt, Array):
+            other = Opaque("SliceIter", (other.ptr, 0, len(tgt.elems), other.mut))
+        elif isinstance(tgt, Opaque) and tgt.kind == "List":
+            other = Opaque("SliceIter", (other.ptr, 0, len(tgt.data[0]), other.mut))
+    return Opaque("Zip", (c["args"][0], other))
+
+
+@model("std::iter::Iterator::chain")
+def m_iter_chain(sim, st, c):
+    return Opaque("Chain", (c["args"][0], c["args"][1]))
+
+
+@model("std::iter::Iterator::fold")
+def m_iter_fold(sim, st, c):
+    acc = c["args"][1]
+    for item in drain(sim, st, c["args"][0]):
+        acc = sim.call_sync(st, c["args"][2], [acc, item])
+    return acc
+
+
+@model("std::iter::Iterator::for_each")
+def m_iter_for_each(sim, st, c):
+    for item in drain(sim, st, c["args"][0]):
+        sim.call_sync(st, c["args"][1], [item])
+    return UNIT
+
+
+@model("std::iter::Iterator::try_for_each")
+def m_iter_try_for_each(sim, st, c):
+    p = sim.deref_value(st, c["args"][0])
+    it = sim.read(st, p)
+    rt = c["ret_ty"]
+    while True:
+        it, item = step_any(sim, st, it)
+        sim.write(st, p, it)
+        if item is None:
+            if is_adt(rt, "Result"):
+                return sim.mk_enum(rt, "Ok", [UNIT])
+            if is_adt(rt, "Option"):
+                return sim.mk_enum(rt, "Some", [UNIT])
+            return sim.mk_enum(rt, "Continue", [UNIT])
+        r = sim.force_variant(st, sim.call_sync(st, c["args"][1], [item]))
+        if r.vname in ("Err", "None", "Break"):
+            return r
+
+
+@model("std::iter::Iterator::try_fold")
+def m_iter_try_fold(sim, st, c):
+    p = sim.deref_value(st, c["args"][0])
+    it = sim.read(st, p)
+    acc = c["args"][1]
+    rt = c["ret_ty"]
+    okname = "Ok" if is_adt(rt, "Result") else ("Some" if is_adt(rt, "Option") else "Continue")
+    while True:
+        it, item = step_any(sim, st, it)
+        sim.write(st, p, it)
+        if item is None:
+            return sim.mk_enum(rt, okname, [acc])
+        r = sim.force_variant(st, sim.call_sync(st, c["args"][2], [acc, item]))
+        if r.vname != okname:
+            return r
+        acc = r.fields[0]
+
+
+@model("std::iter::Iterator::any", "std::iter::Iterator::all")
+def m_iter_any_all(sim, st, c):
+    p = sim.deref_value(st, c["args"][0])
+    it = sim.read(st, p)
+    is_any = c["fn"]["name"] == "any"
+    while True:
+        it, item = step_any(sim, st, it)
+        sim.write(st, p, it)
+        if item is None:
+            return Const(not is_any, prim("bool"))
+        b = sim.decide_bool(st, sim.call_sync(st, c["args"][1], [item]))
+        if b == is_any:
+            return Const(is_any, prim("bool"))
+
+
+@model("std::iter::Iterator::find")
+def m_iter_find(sim, st, c):
+    p = sim.deref_value(st, c["args"][0])
+    it = sim.read(st, p)
+    while True:
+        it, item = step_any(sim, st, it)
+        sim.write(st, p, it)
+        if item is None:
+            return sim.mk_enum(c["ret_ty"], "None")
+        oid = st.new_obj("find_item", item)
+        if sim.decide_bool(st, sim.call_sync(st, c["args"][1], [Ref(Ptr(oid))])):
+            return sim.mk_enum(c["ret_ty"], "Some", [item])
+
+
+@model("std::iter::Iterator::count")
+def m_iter_count(sim, st, c):
+    return Const(len(drain(sim, st, c["args"][0])), prim("usize"))
+
+
+@model("std::iter::Iterator::last")
+def m_iter_last(sim, st, c):
+    items = drain(sim, st, c["args"][0])
+    return sim.mk_enum(c["ret_ty"], "Some", [items[-1]]) if items else sim.mk_enum(c["ret_ty"], "None")
+
+
+@model("std::iter::Iterator::collect")
+def m_iter_collect(sim, st, c):
+    rt = c["ret_ty"]
+    items = drain(sim, st, c["args"][0])
+    if is_adt(rt, "Vec") or is_adt(rt, "VecDeque"):
+        return mk_list(items, rt)
+    raise S.Unsupported("collect into " + ty_str(rt))
+
+
+@pattern(r"^<std::(vec::Vec<T>|collections::VecDeque<T>) as std::iter::FromIterator<T>>::from_iter$")
+def m_from_iter(sim, st, c):
+    return mk_list(drain(sim, st, c["args"][0]), c["ret_ty"])
+
+
+@model("std::iter::Iterator::next")
+def m_iter_next_unresolved(sim, st, c):
+    return m_slice_iter_next(sim, st, c)
+
+
+
+@pattern(r"^<std::vec::Vec<T, A> as std::ops::Deref(Mut)?>::deref(_mut)?$")
+def m_vec_deref(sim, st, c):
+    r = sim.resolve(st, c["args"][0])
+    return Ref(r.ptr, c["fn"]["name"] == "deref_mut")
+
+
+@pattern(r"^std::slice::<impl \[T\]>::get$")
+def m_slice_get(sim, st, c):
+    r = sim.resolve(st, c["args"][0])
+    base, a, b = slice_bounds(sim, st, r)
+    i = sim.resolve(st, c["args"][1])
+    if not isinstance(i, Const):
+        raise S.Unsupported("symbolic get index")
+    if 0 <= i.val < b - a:
+        return sim.mk_enum(c["ret_ty"], "Some", [Ref(base.ext(("i", a + i.val)))])
+    return sim.mk_enum(c["ret_ty"], "None")
+
+
+ITER_METHODS = {}
+
+
+def _register_iter_methods():
+    g = globals()
+    for name, fn in (("fold", "m_iter_fold"), ("for_each", "m_iter_for_each"), ("try_for_each", "m_iter_try_for_each"), ("try_fold", "m_iter_try_fold"),
+                     ("any", "m_iter_any_all"), ("all", "m_iter_any_all"), ("find", "m_iter_find"), ("count", "m_iter_count"), ("last", "m_iter_last"),
+                     ("collect", "m_iter_collect"), ("map", "m_iter_map"), ("filter", "m_iter_filter"), ("filter_map", "m_iter_filter_map"),
+                     ("zip", "m_iter_zip"), ("chain", "m_iter_chain"), ("take", "m_iter_take"), ("skip", "m_iter_skip"), ("enumerate", "m_iter_enumerate"),
+                     ("rev", "m_iter_rev"), ("copied", "m_iter_copied"), ("cloned", "m_iter_copied"), ("next", "m_slice_iter_next")):
+        ITER_METHODS[name] = g[fn]
+
+
+_register_iter_methods()
+
+
+@pattern(r" as std::iter::Iterator>::(\w+)$")
+def m_iter_specialised(sim, st, c):
+    """Iterator methods overridden by a concrete adaptor (e.g. <FilterMap<I,F> as Iterator>::fold): same semantics as the provided method."""
+    name = c["fn"]["name"]
+    m = ITER_METHODS.get(name)
+    if m is None:
+        raise S.Unsupported("no model for iterator method " + c["fn"]["pretty"])
+    return m(sim, st, c)
+
+
+
+@model("std::option::Option::<std::option::Option<T>>::flatten")
+def m_opt_flatten(sim, st, c):
+    v = sim.force_variant(st, c["args"][0])
+    if v.vname == "None":
+        return sim.mk_enum(c["ret_ty"], "None")
+    return sim.force_variant(st, v.fields[0])
+
+
+@model("std::option::Option::<T>::filter")
+def m_opt_filter(sim, st, c):
+    v = sim.force_variant(st, c["args"][0])
+    if v.vname == "None":
+        return v
+    oid = st.new_obj("filter_item", v.fields[0])
+    return v if sim.decide_bool(st, sim.call_sync(st, c["args"][1], [Ref(Ptr(oid))])) else sim.mk_enum(c["ret_ty"], "None")
+
+
+@model("std::option::Option::<T>::or_else")
+def m_opt_or_else(sim, st, c):
+    v = sim.force_variant(st, c["args"][0])
+    return sim.call_sync(st, c["args"][1], []) if v.vname == "None" else v
+
+
+@model("std::option::Option::<T>::ok_or_else")
+def m_opt_ok_or_else(sim, st, c):
+    v = sim.force_variant(st, c["args"][0])
+    if v.vname == "None":
+        return sim.mk_enum(c["ret_ty"], "Err", [sim.call_sync(st, c["args"][1], [])])
+    return sim.mk_enum(c["ret_ty"], "Ok", [v.fields[0]])
+
+
+@model("std::option::Option::<T>::zip")
+def m_opt_zip(sim, st, c):
+    a, b = sim.force_variant(st, c["args"][0]), sim.force_variant(st, c["args"][1])
+    if a.vname == "Some" and b.vname == "Some":
+        return sim.mk_enum(c["ret_ty"], "Some", [Struct(c["ret_ty"]["args"][0], (a.fields[0], b.fields[0]))])
+    return sim.mk_enum(c["ret_ty"], "None")
+
+
+@model("std::option::Option::<T>::insert", "std::option::Option::<T>::get_or_insert")
+def m_opt_insert(sim, st, c):
+    p = sim.deref_value(st, c["args"][0])
+    cur = sim.force_variant(st, sim.read(st, p))
+    if c["fn"]["name"] == "insert" or cur.vname == "None":
+        sim.write(st, p, sim.mk_enum(cur.ty, "Some", [c["args"][1]]))
+        cur = sim.read(st, p)
+    return Ref(p.ext(("d", cur.variant), ("f", 0)), True)
+
+
+@model("std::result::Result::<T, E>::err")
+def m_res_err(sim, st, c):
+    v = sim.force_variant(st, c["args"][0])
+    return sim.mk_enum(c["ret_ty"], "Some", [v.fields[0]]) if v.vname == "Err" else sim.mk_enum(c["ret_ty"], "None")
+
+
+@model("std::result::Result::<T, E>::unwrap_or_else")
+def m_res_unwrap_or_else(sim, st, c):
+    v = sim.force_variant(st, c["args"][0])
+    return v.fields[0] if v.vname == "Ok" else sim.call_sync(st, c["args"][1], [v.fields[0]])
+
+
+@model("std::result::Result::<T, E>::map_or")
+def m_res_map_or(sim, st, c):
+    v = sim.force_variant(st, c["args"][0])
+    return c["args"][1] if v.vname == "Err" else sim.call_sync(st, c["args"][2], [v.fields[0]])
+
+
+@model("std::result::Result::<T, E>::as_ref", "std::result::Result::<T, E>::as_mut")
+def m_res_as_ref(sim, st, c):
+    p = sim.deref_value(st, c["args"][0])
+    v = sim.force_variant(st, sim.read(st, p))
+    return sim.mk_enum(c["ret_ty"], v.vname, [Ref(p.ext(("d", v.variant), ("f", 0)), c["fn"]["name"] == "as_mut")])
+
+
+@model("std::option::Option::<T>::unwrap_or_default")
+def m_opt_unwrap_or_default(sim, st, c):
+    v = sim.force_variant(st, c["args"][0])
+    if v.vname == "Some":
+        return v.fields[0]
+    rt = c["ret_ty"]
+    if S.is_float_ty(rt):
+        return Const(0.0, rt)
+    if S.is_int_ty(rt):
+        return Const(0, rt)
+    return Term("Default", (), rt)
